@@ -139,7 +139,7 @@ func (comp) Gen(r *kit.Rng, maxLen int, tier string) kit.Case {
 	n := 4 + r.Intn(maxLen)
 	for len(ops) < n {
 		i := r.Intn(u)
-		switch r.Pick(16, 46, 4, 26, 8) {
+		switch r.Pick(7, 52, 4, 29, 8) {
 		case 0: // register: mostly the same type again (sampler / cache / transmission re-created)
 			ty := intended[i]
 			if r.Chance(8) {
